@@ -115,8 +115,61 @@ def gen(spec, lv):
     return {"text": "\n".join(L) + "\n", "pre": pre}
 
 
+# integers that no int64 holds (and their neighbours inside the range): an int array / int scalar must hold the written value exactly
+# or the script must be refused - never a wrapped or rounded value.  Outside the number model (mathematical integers), so these are
+# native runs with their own oracle.
+SPECIAL = ("edgeint",)
+EDGE_INTS = [2 ** 63 - 1, 2 ** 63, 2 ** 63 + 1, 2 ** 64 - 1, 2 ** 64, 2 ** 64 + 5, 10 ** 19, 10 ** 20, 3 * 10 ** 18 + 1]
+
+
+def special_text(spec):
+    _, how, v, pos = spec
+    if how == "scalar":
+        return "name c05\nversion 1.0\n\nint n = %d\nGate(n) | 0\n" % v
+    if how == "negscalar":
+        return "name c05\nversion 1.0\n\nint n = -%d\nGate(n) | 0\n" % v
+    row = ["1", "2", "3"]
+    row[pos] = ("-%d" % v) if how == "negarray" else str(v)
+    return "name c05\nversion 1.0\n\nint array A =\n    %s\n    4, 5, 6\nGate(A[%d], A) | 0\n" % (", ".join(row), pos)
+
+
+def special_check(spec, vals, w):
+    import warnings
+    import numpy as np
+    bb = w["bb"]
+    text = special_text(spec)
+    _, how, v, pos = spec
+    want = -v if how.startswith("neg") else v
+    try:
+        with warnings.catch_warnings():
+            warnings.simplefilter("ignore")
+            with np.errstate(all="ignore"):
+                p = bb.loads(text)
+    except Exception:  # noqa  (a value the element type cannot hold may be refused)
+        return None
+    seen = []
+    if how in ("scalar", "negscalar"):
+        seen = [("variable n", p.variables.get("n")), ("argument", p.operations[0]["args"][0])]
+    else:
+        A = p.variables.get("A")
+        seen = [("A[0, %d]" % pos, A[0, pos]), ("argument A[%d]" % pos, p.operations[0]["args"][0]), ("argument A, element [0, %d]" % pos, p.operations[0]["args"][1][0, pos])]
+        if [int(x) for x in np.delete(np.asarray(A).flatten(), pos)] != [x for i, x in enumerate([1, 2, 3, 4, 5, 6]) if i != pos]:
+            return {"text": text, "what": "the other elements of the array changed", "observed": repr(A), "expected": "1..6 around the large entry"}
+    for label, x in seen:
+        try:
+            ok = isinstance(x, (int, np.integer)) and not isinstance(x, (bool, np.bool_)) and int(x) == want
+        except Exception:  # noqa
+            ok = False
+        if not ok:
+            return {"text": text, "what": "an integer beyond / at the edge of the 64-bit range is neither kept exactly nor refused (%s)" % label,
+                    "observed": "%s = %r (%s)" % (label, x, type(x).__name__), "expected": "%d exactly, or an exception" % want}
+    return None
+
+
 def gen_specs(tier, seed):
     specs = [("scalar", vt, init) for (vt, init) in SCALARS]
+    for v in EDGE_INTS:
+        specs += [("edgeint", "scalar", v, 0), ("edgeint", "array", v, 0), ("edgeint", "array", v, 2), ("edgeint", "negarray", v, 1), ("edgeint", "negscalar", v, 0)]
     shapes = []
     for r in (1, 2, 3):
         for c in (1, 2, 3):
